@@ -128,30 +128,44 @@ Section Cfg.
                        | _ => true end) fs.
 
   (* all errors, in the order the collecting mode finds them; raising mode raises the first one.
-     A nested sub-configuration is validated in raising mode (`val.validate()`), so it contributes
-     at most its first error. *)
+     A nested sub-configuration, and every configuration held in a list, is validated in raising mode
+     (`val.validate()` / `item.validate()`), so each field contributes at most its first error. *)
   Fixpoint validate_errs (nd : node) (pre : str) (v : val) {struct nd} : list errk :=
+    let cfg_errs :=
+      fun (vs : list N) (fs : list (str * node)) (pre : str) (c : cfg) =>
+        match c with
+        | Cfg _ d _ _ =>
+            if feature_enabled fs d then
+              (fix go (fs' : list (str * node)) {struct fs'} : list errk :=
+                 match fs' with
+                 | [] => []
+                 | (k, nd') :: r =>
+                     (match nd', dget k d with
+                      | NLeaf f, Some (VLeaf x) =>
+                          match lvalidate f x with Err e => [wrap (path_join pre k) e] | _ => [] end
+                      | NCfgList req _ _, Some (VLeaf PNone) =>
+                          if req then [EValidation (path_join pre k)] else []
+                      | NCfgList req _ _, Some (VList l) =>
+                          (* field.validate (required / empty), then item.validate() for every configuration in the list *)
+                          if req && match l with [] => true | _ => false end then [EValidation (path_join pre k)]
+                          else firstn 1 (validate_errs nd' (path_join pre k) (VList l))
+                      | NSub _ _ _, Some (VCfg c') =>
+                          firstn 1 (validate_errs nd' (path_join pre k) (VCfg c'))
+                      | _, _ => []
+                      end) ++ go r
+                 end) fs
+              ++ flat_map (fun n => if vrun n (leaf_values d) then [] else [EValidation pre]) vs
+            else []
+        end in
     match nd, v with
-    | NSub _ vs fs, VCfg (Cfg _ d _ _) =>
-        if feature_enabled fs d then
-          (fix go (fs' : list (str * node)) {struct fs'} : list errk :=
-             match fs' with
-             | [] => []
-             | (k, nd') :: r =>
-                 (match nd', dget k d with
-                  | NLeaf f, Some (VLeaf x) =>
-                      match lvalidate f x with Err e => [wrap (path_join pre k) e] | _ => [] end
-                  | NCfgList req _ _, Some (VLeaf PNone) =>
-                      if req then [EValidation (path_join pre k)] else []
-                  | NCfgList req _ _, Some (VList l) =>
-                      if req && match l with [] => true | _ => false end then [EValidation (path_join pre k)] else []
-                  | NSub _ _ _, Some (VCfg c) =>
-                      firstn 1 (validate_errs nd' (path_join pre k) (VCfg c))
-                  | _, _ => []
-                  end) ++ go r
-             end) fs
-          ++ flat_map (fun n => if vrun n (leaf_values d) then [] else [EValidation pre]) vs
-        else []
+    | NSub _ vs fs, VCfg c => cfg_errs vs fs pre c
+    | NCfgList _ vs fs, VList l =>
+        (* the errors of the items, item by item, each at its own path pre[i] *)
+        (fix items (l : list cfg) (i : N) {struct l} : list errk :=
+           match l with
+           | [] => []
+           | it :: r => cfg_errs vs fs (path_index pre i) it ++ items r (i + 1)
+           end) l 0
     | _, _ => []
     end.
 
